@@ -248,6 +248,22 @@ class Double(Decimal):
                     and cls.Attributes.le == Double.Attributes.le
                 )
 
+    @staticmethod
+    def validate_native(cls, value):
+        if isinstance(value, float) and (value != value
+                                  or value in (float('inf'), float('-inf'))):
+            # xs:double has NaN, INF and -INF. These can't be compared with the
+            # bounds: NaN is valid only when no bound is set, an infinity when
+            # no bound is set on its side.
+            a, d = cls.Attributes, Decimal.Attributes
+            lo = (a.gt, a.ge) == (d.gt, d.ge)
+            hi = (a.lt, a.le) == (d.lt, d.le)
+
+            return SimpleModel.validate_native(cls, value) and (
+                  (lo and hi) if value != value else hi if value > 0 else lo)
+
+        return Decimal.validate_native(cls, value)
+
 
 class Float(Double):
     """Synonym for Double (as far as python side of things are concerned).
